@@ -157,6 +157,9 @@ macro_rules! fuse_int_nulls_case {
         let mut err = op.execute(false, &mut sp).is_err();
         let mut uop = fuse_nulls::UnfuseIntNulls::<$ty> { offset: off as $ty, fused: br(1), data: br(2), present: br(3), unfused: br(4) };
         uop.init(0, 32, &mut sp);
+        // rows decoded by earlier batches of the same (non-streaming) run are already in the output buffers
+        sp.set(br::<$ty>(2), vec_of::<$ty>($t[3]));
+        sp.set(br::<u8>(3), vec_of::<u8>($t[4]));
         err |= uop.execute(false, &mut sp).is_err();
         let fused = sp.get(br::<$ty>(1)).to_vec();
         let data = sp.get(br::<$ty>(2)).to_vec();
